@@ -73,8 +73,7 @@ class Gen:
 
     # ------------------------------------------------------------------
     def run(self):
-        with open(self.unit_path) as f:
-            raw = f.read().split('\n')
+        raw = self.load(self.unit_path)
         i = 0
         region = {'kind': 'verbatim', 'region': 'prelude', 'props': []}
         while i < len(raw):
@@ -142,6 +141,24 @@ class Gen:
                 i += 1
         return '\n'.join(self.lines) + '\n'
 
+    def load(self, path, as_stub=False):
+        """Read a .vu file, expanding `//@ include <file> [as_stub]` (as_stub turns every `fn`
+        directive of the included file into `stub`, so the same contract text is proved in one
+        unit and assumed in another)."""
+        out = []
+        with open(path) as f:
+            for ln in f.read().split('\n'):
+                s = ln.strip()
+                if s.startswith('//@ include '):
+                    d = s.split()
+                    inc = os.path.join(os.path.dirname(self.unit_path), d[2])
+                    out += self.load(inc, as_stub=as_stub or 'as_stub' in d[3:])
+                elif as_stub and s.startswith('//@ fn '):
+                    out.append(ln.replace('//@ fn ', '//@ stub ', 1))
+                else:
+                    out.append(ln)
+        return out
+
     # ------------------------------------------------------------------
     def strip_prefix(self, item, keep_derive=True, strip_derive=()):
         """N1: drop doc comments and attributes except derive/default. Returns (text, first_src_line)."""
@@ -208,9 +225,10 @@ class Gen:
         f = self.rf(rel)
         it = f.find_item(kind, name)
         # `Debug` is always dropped from derive lists (fmt machinery, irrelevant to semantics; counted under N1)
-        strip_derive = tuple(x for x in opts.get('strip_derive', '').split(',') if x) + ('Debug',)
+        strip_derive = tuple(x for x in opts.get('strip_derive', '').split(',') if x) + (() if 'keep_debug' in opts else ('Debug',))
         prefix, body, first = self.strip_prefix(it, strip_derive=strip_derive)
-        body = self.strip_pub(body)
+        if 'keep_pub' not in opts:
+            body = self.strip_pub(body)
         body = self.strip_inner_docs(body)
         dropped = []
         if opts.get('drop'):
@@ -221,6 +239,9 @@ class Gen:
                 body = pat.sub('', body, count=1)
                 dropped.append(fld)
                 self.norm_counts['N4_dropped_fields'] += 1
+        if opts.get('external_derive'):
+            # the derived impls are left outside Verus; what is assumed about them is stated (and listed as trusted)
+            self.emit('#[verifier::external_derive]', {'kind': 'gen'})
         for p in prefix:
             self.emit(p, {'kind': 'src-attr', 'file': rel})
         self.emit_src(body, rel, first)
@@ -237,15 +258,43 @@ class Gen:
 
     # ------------------------------------------------------------------
     def do_fn(self, is_stub, rel, impl_match, name, opts, sections):
+        if self.canary == 'exit' and not is_stub and 'no_canary' not in opts:
+            # the function itself, unchanged (callers must see its real contract) ...
+            saved = self.canary
+            self.canary = None
+            self._do_fn(is_stub, rel, impl_match, name, opts, sections, record=True)
+            # ... and a renamed twin carrying `ensures false` (inherent fns only: a trait impl cannot hold a twin)
+            self.canary = saved
+            if '>for' in impl_match or ' for ' in impl_match:
+                self.functions[-1]['no_exit_canary'] = True
+                return
+            self._do_fn(is_stub, rel, impl_match, name, opts, sections, record=False, twin=True)
+            return
+        self._do_fn(is_stub, rel, impl_match, name, opts, sections)
+
+    def _do_fn(self, is_stub, rel, impl_match, name, opts, sections, record=True, twin=False):
+        # a trait impl is written without blanks in the directive: `From<A>forB` means `From<A> for B`
+        m = re.match(r'^(.*>)for([A-Z]\w*)$', impl_match)
+        if m:
+            impl_match = '%s for %s' % (m.group(1), m.group(2))
         f = self.rf(rel)
         it = f.find_fn(name, impl_match)
         qual = (impl_match + '::' if impl_match != '-' else '') + name
         qual = opts.get('as', qual)
         props = [p for p in opts.get('props', '').split(',') if p]
-        self.fn_props[qual] = props
+        if record:
+            self.fn_props[qual] = props
         _, text, first = self.strip_prefix(it, keep_derive=False)
-        text = self.strip_pub(text)
+        if 'keep_pub' not in opts:
+            text = self.strip_pub(text)
         text = self.n2_ref_patterns(text)
+        if opts.get('dropinit'):
+            # N4 (continued): initialisers of dropped struct fields are dropped from struct literals
+            for fld in opts['dropinit'].split(','):
+                text, n = re.subn(r'(?m)^[ \t]*%s\s*:[^\n]*,[ \t]*$' % re.escape(fld), '', text)
+                if n == 0:
+                    raise rsx.LostAnchor('%s: no initialiser of dropped field %s in %s' % (rel, fld, qual))
+                self.norm_counts['N4_dropped_fields'] += n
         # impl header
         header = None
         item_ty = None
@@ -262,11 +311,19 @@ class Gen:
                 header = 'impl%s %s %s' % (generics, ty, where)
             elif trait is not None:
                 header = 'impl%s %s for %s %s' % (generics, trait, ty, where)
+                # associated types of the trait impl are part of its header as far as typing goes
+                imp = f.find_impl('%s for %s' % (trait, ty))
+                assoc = re.findall(r'(?m)^\s*type\s+\w+\s*=\s*[^;]+;', imp.text)
+                if assoc:
+                    header += ' {\n' + '\n'.join(a.strip() for a in assoc)
+                    header = header + '\n//__ASSOC__'
             else:
                 header = 'impl%s %s %s' % (generics, ty, where)
         # N5: name the return value
         ret = opts.get('ret', 'r')
         text = self.n5_name_return(text, ret)
+        if twin:
+            text = re.sub(r'\bfn\s+%s\b' % re.escape(name), 'fn %s__canary' % name, text, count=1)
         # N6: name the ghost iterator of a `for` loop where the contract asks for it
         for sec in sections:
             if sec['sec'] == 'loop' and sec.get('opts', {}).get('iter'):
@@ -301,7 +358,7 @@ class Gen:
             spec = [s for s in sections if s['sec'] == 'spec']
             sig = text[:body_open].rstrip()
             if header:
-                self.emit(header + ' {', {'kind': 'gen'})
+                self.emit(header.replace('\n//__ASSOC__', '') if '//__ASSOC__' in header else header + ' {', {'kind': 'gen'})
             self.emit('#[verifier::external_body]', {'kind': 'gen'})
             self.emit_src(sig, rel, first, fn=qual)
             for s in spec:
@@ -313,7 +370,7 @@ class Gen:
             return
         inserts.sort(key=lambda x: x[0])
         if header:
-            self.emit(header + ' {', {'kind': 'gen'})
+            self.emit(header.replace('\n//__ASSOC__', '') if '//__ASSOC__' in header else header + ' {', {'kind': 'gen'})
         pos = 0
         cur_line = first
         for off, sec in inserts:
@@ -327,8 +384,9 @@ class Gen:
         self.emit_src(text[pos:], rel, cur_line, fn=qual)
         if header:
             self.emit('}', {'kind': 'gen'})
-        self.functions.append({'fn': qual, 'file': rel, 'lines': [it.line_start, it.line_end], 'sha256': it.sha256,
-                               'loops': len(loops), 'props': props})
+        if record:
+            self.functions.append({'fn': qual, 'file': rel, 'lines': [it.line_start, it.line_end], 'sha256': it.sha256,
+                                   'loops': len(loops), 'props': props})
 
     def add_canary(self, sections):
         sections = [dict(s, lines=list(s['lines'])) for s in sections]
